@@ -156,6 +156,20 @@ def rule_patterns(ctx: Ctx, data):
     # convert_regex handles `c?` for multi-byte c
     cr = ctx.repo.hyperscan_converter()
     okc = cr is not None and any(isinstance(n, ast.Call) and dotted(n.func) == "re.sub" and "(?:\\\\1)?" in norm(n) for n in walk_local(cr))
+    # R-C14-8: Hyperscan does not know the `{,n}` spelling of a bounded repeat (it reads it as literal text), so the converter's `{,n}` -> `{0,n}`
+    # rewrite must be applied on every path that returns a pattern -- as long as any extractor pattern uses that spelling
+    n_open = sum(1 for e in data["extractors"] if _re.search(r"\{,\d+\}", e["regex"]))
+    if cr is not None:
+        from ..paths import enumerate_paths
+        rew = [s_ for s_ in stmts_local(cr.body) if isinstance(s_, ast.Assign) and any(
+            isinstance(c_, ast.Call) and dotted(c_.func) in ("re.sub", "regex.sub") and c_.args and isinstance(c_.args[0], ast.Constant)
+            and isinstance(c_.args[0].value, str) and "\\{," in c_.args[0].value for c_ in ast.walk(s_.value))]
+        skipping = [p_ for p_ in enumerate_paths(cr.body) if p_.exit == "return" and not any(ev_[0] == "stmt" and ev_[1] in rew for ev_ in p_.events)]
+        conds = sorted({norm(ev_[1])[:40] for p_ in skipping for ev_ in p_.events if ev_[0] == "cond"})
+        ctx.ob("R-C14-8", "tokenizers.HyperscanTokenizer.hyperscan_db.convert_regex/open-lower-bound-rewritten", (bool(rew) and not skipping) or n_open == 0,
+               f"{n_open} extractor patterns write a bounded repeat as `{{,n}}`; every path through the converter must rewrite it to `{{0,n}}` "
+               f"({len(skipping)} returning path(s) skip the rewrite; conditions on them: {conds}): otherwise Hyperscan compiles a pattern that looks for the "
+               "literal characters and never reports the candidate", node=(skipping[0].exit_node if skipping else cr), mod=tm)
     ctx.ob("R-C14-3", "tokenizers.HyperscanTokenizer.hyperscan_db.convert_regex/optional-multibyte", bool(okc),
            "`c?` for a multi-byte c is rewritten to `(?:c)?` before compiling", node=cr or db, mod=tm)
 
@@ -212,6 +226,17 @@ def rule_revalidation(ctx: Ctx):
                    f"`{H}` starts empty, is filled by the scan callback only and is iterated as it is by the loop that re-matches and yields "
                    f"(bindings {[norm(b_)[:40] for b_ in binds]}, shrinking calls {[norm(c_)[:30] for c_ in shrinks]}, yielding loops over it: {len(loops)})",
                    node=(binds[1] if len(binds) > 1 else shrinks[0] if shrinks else fn), mod=tm)
+    rule_offset_table(ctx, "R-C14-7")
+
+
+def rule_offset_table(ctx: Ctx, rule: str = "R-C14-7"):
+    """byte offsets of Hyperscan hits become str offsets by *strict* decoding of the bytes in between; an offset that splits a character cannot be
+    decoded and is dropped.  (Shared with C02: a lenient decode counts the stray bytes of a split character as characters and every later
+    offset drifts.)"""
+    repo = ctx.repo
+    tm = repo.mod("tokenizers")
+    fn = repo.need_func("tokenizers.HyperscanTokenizer.extract_tokens")
+    q = "tokenizers.HyperscanTokenizer.extract_tokens"
     # byte offset -> str offset by decoding; undecodable offsets are dropped
     dec = [n for n in walk_local(fn) if isinstance(n, ast.Call) and isinstance(n.func, ast.Attribute) and n.func.attr == "decode"]
     okd = False
@@ -230,13 +255,17 @@ def rule_revalidation(ctx: Ctx):
         counted = any(l.args[0] is d or norm(LOC.expand(l.args[0], l)) == norm(LOC.expand(d, d)) for l in lens)
         if counted and in_try and isinstance(sl, ast.Subscript) and isinstance(sl.slice, ast.Slice):
             okd = True
-    ctx.ob("R-C14-7", f"{q}/byte-to-str-offsets-by-decoding", okd,
+    lenient = [d for d in dec if any(isinstance(a, ast.Constant) and a.value in ("replace", "ignore", "backslashreplace") for a in list(d.args) + [k.value for k in d.keywords])]
+    ctx.ob(rule, f"{q}/strict-decoding-only", not lenient,
+           f"every decode that counts characters is strict ({[norm(d)[:50] for d in lenient]}): a lenient error handler turns the stray bytes of a split character "
+           "into characters of their own and the offsets of all later hits drift", node=lenient[0] if lenient else fn, mod=tm)
+    ctx.ob(rule, f"{q}/byte-to-str-offsets-by-decoding", okd,
            "str offsets are obtained by decoding the bytes between consecutive hit offsets (len(bytes[a:b].decode())), and an offset that splits a "
            "character (UnicodeDecodeError) is dropped: offsets of kept hits are exact for every text", node=dec[0] if dec else fn, mod=tm)
     table = next((norm(x.targets[0].value) for x in stmts_local(fn.body) if isinstance(x, ast.Assign) and isinstance(x.targets[0], ast.Subscript)
                   and isinstance(x.targets[0].value, ast.Name)), None)
     lookups = [n for n in walk_local(fn) if isinstance(n, ast.Compare) and any(isinstance(o, (ast.In, ast.NotIn)) for o in n.ops) and table and norm(n.comparators[0]) == table]
-    ctx.ob("R-C14-7", f"{q}/misaligned-hits-discarded", len(lookups) >= 2, "a hit is used only if both of its offsets decoded", node=lookups[0] if lookups else fn, mod=tm)
+    ctx.ob(rule, f"{q}/misaligned-hits-discarded", len(lookups) >= 2, "a hit is used only if both of its offsets decoded", node=lookups[0] if lookups else fn, mod=tm)
 
 
 def rule_cache(ctx: Ctx):
